@@ -80,7 +80,7 @@ fn zero_len_lists() -> Vec<(Vec<SEntry>, usize)> {
 pub fn run(tier: &str) -> i32 {
     let rep = Report::new("C19", tier, "model_checking");
     let thorough = rep.thorough();
-    rep.rule("(a) add_tile(id, empty) as Vec/&[u8]/String for every alphabet id in every state of the C04 history search (BFS to fix-point): Err, hook snapshot and all observations unchanged; (b) zero-length entry at every index of directories of size 1..4 and at {0,500,999} of 1000: parser (bytes from the spec encoder) and serialiser refuse, x4 compressions x sync/async, and archives carrying one in root or leaf do not open; (c) metadata of every non-object JSON kind refused on open, {} accepted; (d) internal compression Unknown refused by writer, by open and by the six codec helpers; non-trivial = all cases (each is a rejection or its accepting control)");
+    rep.rule("(a) add_tile(id, empty) as Vec/&[u8]/String for every alphabet id in every state of the C04 history search (BFS to fix-point): Err, hook snapshot and all observations unchanged; (b) zero-length entry at every index of directories of size 1..4 and at {0,500,999} of 1000: parser (bytes from the spec encoder) and serialiser refuse, x4 compressions x sync/async, and archives carrying one in root or leaf do not open; (c) metadata of every non-object JSON kind refused on open - including arrays holding objects and strings whose text is a JSON object or another JSON document -, objects accepted; (d) internal compression Unknown refused by writer, by open and by the six codec helpers; non-trivial = all cases (each is a rejection or its accepting control)");
 
     // ---- (a) history clause
     let alpha = Alphabet::new(thorough);
@@ -186,9 +186,15 @@ pub fn run(tier: &str) -> i32 {
     rep.count("zero_length_archives", na);
 
     // ---- (c) metadata kinds
-    let metas: [(&str, bool); 12] = [
+    // every JSON value kind, and non-objects that *contain* or *spell* an object: an object inside an array, and strings
+    // whose text is itself a JSON document (a reader that unwraps or re-parses must still refuse them)
+    let metas: [(&str, bool); 27] = [
         ("null", false), ("true", false), ("false", false), ("0", false), ("-1.5", false), ("\"\"", false), ("\"s\"", false),
         ("[]", false), ("[{}]", false), ("[1,{\"a\":2}]", false), ("{}", true), ("{\"a\":[1]}", true),
+        (" null\n", false), ("1E2", false), ("18446744073709551616", false), ("[[{}]]", false), ("[null]", false),
+        ("\"{}\"", false), ("\"{\\\"name\\\":\\\"x\\\"}\"", false), ("\" { \\\"a\\\" : [1, 2] } \"", false), ("\"\\\"{}\\\"\"", false),
+        ("\"[]\"", false), ("\"null\"", false), ("\"\\u007b\\u007d\"", false),
+        (" {\n} ", true), ("{\"\":{}}", true), ("{\"a\":\"{}\"}", true),
     ];
     let mut nm = 0u64;
     for comp in 1..=4u8 {
